@@ -39,3 +39,20 @@ Example C10_instance :
   = Some (((TF :: TA :: nil), false) :: ((TT :: TF :: nil), true) :: ((TT :: TT :: nil), false) :: nil)
   /\ tt_rows_f (0 :: 1 :: nil) TTrue (Nd (Nd F 1 T) 0 F) (TA :: TA :: nil) = Some (((TT :: TF :: nil), true) :: nil).
 Proof. split; vm_compute; reflexivity. Qed.
+
+(** the header: whenever the binary prints, the header is the list of the formula's free variables (var_is_free, exact by
+    C09_free) by name, in increasing variable id - ids come from the ordering file where it lists the name (C11_file_order)
+    and from first appearance otherwise - and -r prints all variables in the same order *)
+From Coq Require Import Sorting.Sorted NArith.
+From Rsbdd Require Import Lang.Ast Syntax.Tokenize Cli.Header.
+Theorem C10_header fuel uc o ordfile txt out : cli fuel uc o ordfile txt = CliOk out ->
+  exists ord p,
+    (match ordfile with None => ord = nil | Some otxt => ordering_of_file uc otxt = Done ord end) /\
+    parsed_formula uc ord txt = Done p /\
+    let names := name_table uc ord txt in
+    out_header out = map (name_of names) (pf_free p) /\
+    out_order out = map (name_of names) (pf_vars p) /\
+    pf_free p = filter (var_is_free (pf_form p)) (pf_vars p) /\
+    Sorted le (pf_vars p) /\ NoDup (pf_vars p) /\ NoDup (pf_free p).
+Proof. exact (C10_cli_header fuel uc o ordfile txt out). Qed.
+Print Assumptions C10_header.
